@@ -20,7 +20,7 @@ extern "C" void h_write_bin()
 {
   Memory m;
   m.low_address = nondet_uint(); m.high_address = nondet_uint();
-  ASSUME(m.low_address <= m.high_address && m.high_address < 0xffffffff);
+  ASSUME(m.low_address <= m.high_address && m.high_address - m.low_address < 0xffffffffu);   /* any range up to the top of the address space; not the whole 4 GiB (byte count in 32 bits) */
   g_low = m.low_address; g_high = m.high_address; g_W = nondet_uint(); g_W_val = nondet_uchar();
   g_pos = 0; g_hits = 0; g_order_ok = 1; g_last_read = 0;
   int r = write_bin(&m, (FILE *)0);
